@@ -152,6 +152,8 @@ func runC11(r *Run) {
 
 	checkDelegationStore(r)
 	checkPostponed(r)
+	checkAddressRoles(r, "C11.roles")
+	checkDelegationDumpLoad(r)
 	r.Floor("C11.", 40)
 }
 
